@@ -240,6 +240,16 @@ def c18_codec(ctx, fmt, depth, form, hw=(5, 7)):
     want = rgb.reshape(*hw) if form != "colour" else rgb
     ctx.ensure("decoded array == original (RGB order), same dtype", img.img.dtype == dt and img.img.shape == want.shape and bool(np.array_equal(img.img, want)))
     ctx.ensure("matching image kind", isinstance(img, darsia.OpticalImage if form == "colour" else darsia.ScalarImage))
+    if form == "colour" and depth == "uint16":
+        # 16-bit colours survive the file: what imread returns is the stored value / 65535 (or the stored integers), never an 8-bit quantisation of it
+        with tempfile.TemporaryDirectory() as tmp, contextlib.redirect_stdout(io.StringIO()):
+            o = darsia.OpticalImage(rgb.copy(), dimensions=[1.0, 2.0], color_space="RGB")
+            p = Path(tmp) / ("img" + (".png" if fmt == ".png" else ".tif"))
+            o.write(p)
+            back = darsia.imread(p, dimensions=[1.0, 2.0])
+        b = np.asarray(back.img)
+        same16 = bool(np.array_equal(b, rgb)) if b.dtype == np.uint16 else bool(np.allclose(b.astype(float), rgb / 65535.0, rtol=0, atol=0.6 / 65535.0))
+        ctx.ensure("16-bit optical image written to a lossless file reads back with the same colours (to half a 16-bit level)", b.shape == rgb.shape and same16)
     if form == "colour" and depth == "uint8":
         with tempfile.TemporaryDirectory() as tmp, contextlib.redirect_stdout(io.StringIO()):
             o = darsia.OpticalImage(rgb.copy(), dimensions=[1.0, 2.0], color_space="RGB")
